@@ -226,6 +226,10 @@ def file_step(rng, sf, files, log, evs):
             kw["output_filename"] = files.path(out)
         if bak:
             kw["backup_filename"] = files.path(bak)
+        if body == "normal" and rng.random() < 0.12:
+            # the backup "file" named is the DIRECTORY that holds the input: it cannot be opened for writing, the save is refused
+            body, bak = "unwritable", "."
+            kw["backup_filename"] = files.dir if rng.random() < 0.5 else files.dir + os.sep
         try:
             with simfile.mutate(files.path(name), **kw) as m:
                 for _ in range(rng.randint(0, 3)):
